@@ -34,6 +34,7 @@ type Program struct {
 	extraImports map[string]*types.Package
 	specOpts     map[string][]string
 	preds        map[string]*Pred
+	axioms       map[string][]*Clause // package path -> axioms of its contract file
 	loadSeconds  float64
 }
 
@@ -93,7 +94,7 @@ func loadProgram(dir string, patterns []string, overlay map[string][]byte) (*Pro
 	P := &Program{dir: dir, pkgs: pkgs, prog: prog, contracts: map[string]*FuncContract{},
 		loopCache: map[*ssa.Function]map[*ssa.BasicBlock]*loopInfo{}, constGlobals: map[string]bool{},
 		globalInit: map[string][]constant.Value{}, globalType: map[string]types.Type{}, tagSeq: map[string]bool{}, extraImports: map[string]*types.Package{},
-		allPkgs: map[string]*packages.Package{}, specOpts: map[string][]string{}, preds: map[string]*Pred{}}
+		allPkgs: map[string]*packages.Package{}, specOpts: map[string][]string{}, preds: map[string]*Pred{}, axioms: map[string][]*Clause{}}
 	packages.Visit(pkgs, nil, func(p *packages.Package) { P.allPkgs[p.PkgPath] = p })
 	// build only repo packages (dependencies stay as declarations: calls into them are external)
 	for _, p := range P.allPkgs {
@@ -115,6 +116,7 @@ func loadProgram(dir string, patterns []string, overlay map[string][]byte) (*Pro
 					return nil, err
 				}
 				P.files = append(P.files, cf)
+				P.axioms[p.PkgPath] = append(P.axioms[p.PkgPath], cf.Axioms...)
 				for k, v := range cf.Preds {
 					P.preds[p.PkgPath+"."+k] = v
 				}
@@ -320,8 +322,8 @@ func (P *Program) findConstGlobals() {
 		for _, m := range sp.Members {
 			if gl, ok := m.(*ssa.Global); ok && !written[gl] {
 				key := "G:" + p.PkgPath + "." + gl.Name()
+				P.constGlobals[key] = true // never written outside package initialisers
 				if vals := P.arrayInit(p, gl.Name()); vals != nil {
-					P.constGlobals[key] = true
 					P.globalInit[key] = vals
 					P.globalType[key] = gl.Type().(*types.Pointer).Elem()
 				}
